@@ -327,6 +327,20 @@ func (r *Run) Judge(t TB, c any, fails []Failure) {
 	if len(rest) == 0 {
 		return
 	}
+	if os.Getenv("VERIF_COLLECT") == "1" {
+		// survey mode (development only): record one violation per distinct key and keep going
+		for _, f := range rest {
+			r.mu.Lock()
+			seen := r.excluded["collect:"+f.Key] > 0
+			r.excluded["collect:"+f.Key]++
+			r.mu.Unlock()
+			if !seen {
+				r.recordFail(c, []Failure{f})
+				r.Commit()
+			}
+		}
+		return
+	}
 	r.recordFail(c, rest)
 	t.Fatalf("%s/%s: %d failure(s); first: [%s] %s", r.Prop, r.Lane, len(rest), rest[0].Key, rest[0].Detail)
 }
@@ -446,7 +460,7 @@ func Guard(what string, f func()) (fail *Failure) {
 		if rec := recover(); rec != nil {
 			st := debug.Stack()
 			site := PanicSite(st)
-			fl := Failf("panic|"+site, "%s: panic: %v", what, rec)
+			fl := Failf("panic|"+site+"|"+ErrClass(fmt.Errorf("%v", rec)), "%s: panic: %v", what, rec)
 			fail = &fl
 		}
 	}()
@@ -606,9 +620,10 @@ func mustRead(p string) []byte {
 
 var (
 	reQuoted = regexp.MustCompile("\"[^\"]*\"|'[^']*'|`[^`]*`")
-	reNum    = regexp.MustCompile(`-?\d+(\.\d+)?`)
+	reNum    = regexp.MustCompile(`-?\b\d+(\.\d+)?\b`)
 	reIdent  = regexp.MustCompile(`\b[a-zA-Z_][\w]*(\.[\w]+)+\b`)
 	reSpace  = regexp.MustCompile(`\s+`)
+	reGoType = regexp.MustCompile(`\*[a-z][a-z0-9_]*\.[A-Z][A-Za-z0-9_]*`)
 )
 
 // ErrClass collapses an error message into a coarse class for finding keys:
@@ -619,7 +634,13 @@ func ErrClass(err error) string {
 	}
 	s := err.Error()
 	s = reQuoted.ReplaceAllString(s, "Q")
+	// Go type names (*pkg.Type) are structural: keep them
+	types := reGoType.FindAllString(s, -1)
+	s = reGoType.ReplaceAllString(s, "\x00")
 	s = reIdent.ReplaceAllString(s, "ID")
+	for _, ty := range types {
+		s = strings.Replace(s, "\x00", ty, 1)
+	}
 	s = reNum.ReplaceAllString(s, "N")
 	s = reSpace.ReplaceAllString(s, " ")
 	if len(s) > 90 {
